@@ -185,9 +185,10 @@ Example C04_replay_nonvacuous :
     = [ex_vote 2 5 0 1 110].
 Proof. vm_compute. split; reflexivity. Qed.
 
-(* what the persistence order buys: had the signature been handed out BEFORE the file was
-   replaced (crash point "before the rename" with the signature already released), the restarted
-   signer would sign a conflicting precommit — the model of the real order refuses it *)
+(* a crash before the state file is replaced binds nothing: the restarted signer signs a
+   different block for that (height, round, step).  This is safe only because nothing had been
+   handed out at that point (C04_persist_before_release): the order "persist, then release" is
+   what the property rests on. *)
 Example C04_crash_before_rename_binds_nothing :
   snd (run msg ex_sign (init_state msg)
          [OpCrashSign CBeforeTemp (ex_vote 2 7 0 1 10); OpSign (ex_vote 2 7 0 2 20)])
